@@ -99,6 +99,11 @@ def scripts(ctx):
         s = Script("W-stomp-" + api).op("drain_ch_pool").op("drain_ctx_pool").start(0, api, 2000, 1).to_select(0).wait(0).run_done("R0")
         s.tell(1).keep_ctx(0).start(1, api, 60, 1).to_select(1).run_done("A0").wait(1).run_done("R1").deadline(1).run_done("A1")
         out.append(s)
+    # the late store lands on the recycled context BEFORE the next Ask builds it: build must reset the flag
+    for api in APIS:
+        s = Script("W-store-before-rebuild-" + api).op("drain_ch_pool").op("drain_ctx_pool").start(0, api, 2000, 1).to_select(0).wait(0).run_done("R0")
+        s.tell(1).keep_ctx(0).run_done("A0").start(1, api, 2000, 1).to_select(1).wait(1).run_done("R1").run_done("A1")
+        out.append(s)
     n_lost = 36 if ctx.thorough else 14
     for k in range(n_lost):
         api = APIS[k % 3]
@@ -130,7 +135,7 @@ def scripts(ctx):
         s.start(1, api, 2000, 1).to_select(1).wait(1).run_done("R1").run_done("A1")
         out.append(s)
     # ---- generated compositions ----
-    n_gen = 90 if ctx.thorough else 26
+    n_gen = 300 if ctx.thorough else 40
     for k in range(n_gen):
         s = Script("gen-%d" % k)
         if rng.random() < 0.8:
@@ -270,6 +275,10 @@ def oracle(script, out):
             # did the handler's first Response call return before the deadline passed?
             r_entries = [k for k, e in enumerate(log) if e["t"] == "R%d" % i]
             tick = [k for k, e in enumerate(log) if e["t"] == "A%d" % i and e["fn"] == "director" and e["kind"] == "tick"]
+            if not tick:
+                # no deadline was scripted: the real timer ran out while the asker was blocked in select; the
+                # deadline is later than the moment the asker entered the select
+                tick = [k for k, e in enumerate(log) if e["t"] == "A%d" % i and e["kind"] == "select" and e["fn"] in ("Ask", "handleRemoteAsk")][:1]
             nresp = script.asks[i]["nresp"]
             if nresp == 0 or not r_entries or not tick:
                 continue
@@ -380,6 +389,10 @@ def run(ctx):
     seen = {}
     for k, s, o in good:
         for sig, text in oracle(s, o):
+            if k in mism:
+                # the model of the code (with its listed defects) does NOT produce this outcome on this interleaving:
+                # it is not one of the known findings, whatever it looks like
+                sig, text = sig + ":not-explained-by-the-model", text + " — and the model of the Ask path does not reproduce this outcome on the same interleaving"
             seen.setdefault(sig, []).append((s, o, text))
     n_lost_trials = sum(1 for k, s, o in good if s.name.startswith("W-both-ready"))
     n_cancel_trials = sum(1 for k, s, o in good if s.name.startswith("W-both-ready-cancel"))
@@ -425,9 +438,10 @@ def run(ctx):
 
 
 THEOREMS = ["C15_cross_refuted", "C15_lost_refuted", "C15_ctx_reuse_refuted", "C15_no_cross_delivery_partial",
-            "C15_in_time_reply_returned_partial", "C15_own_reply_partial"]
+            "C15_in_time_reply_returned_partial", "C15_own_reply_partial", "C15_as_is_no_failure_partial"]
 
 META = {
+    "ready": True,
     "category": "proof",
     "technique": "Rocq proof over a hand-written atomic-step model + scripted-preemption replay of the instrumented real Ask paths + independent oracle",
     "text": "Ask reply path (asker, responder, timer, context recycling, pooled channels and contexts) modelled at atomic-step granularity.",
